@@ -361,6 +361,18 @@ class Check:
             f"(theorems listed in lean/theorems.json[{self.prop}]); then ./check {self.prop} --tier {self.tier}"
         )
         self.cov["trusted_base"] = TRUSTED_BASE
+        try:
+            from . import linecov
+
+            lc = linecov.report(self.prop, VERIF, str(REPO / "src"))
+            if lc:
+                self.cov["anchor_lines_executed"] = lc
+                self.cov["anchor_lines_note"] = (
+                    "lines inside functions of the files this property is anchored in that were executed IN THE CHECK PROCESS "
+                    "(sys.monitoring); worker subprocesses are not traced; not_executed lists the places no execution-based part "
+                    "of this run could observe")
+        except Exception as e:  # noqa: BLE001 - a measurement, never a reason to fail the check
+            self.cov["anchor_lines_note"] = f"line measurement failed: {e}"
         rc = 0
         lines = []
         for fid, what in sorted(self.known_seen.items()):
